@@ -58,7 +58,16 @@ struct Pat {
     memcpy(b, s.data(), len);
     b[len] = 0;
   }
-  bool intact() const { return memcmp(b, orig.c_str(), len + 1) == 0; }
+  bool intact() const { return b && memcmp(b, orig.c_str(), len + 1) == 0; }
+  // the caller's buffer is reused / given back as soon as the call has returned: an iterator that still refers to it reads
+  // freed (poisoned) memory, or other bytes, from then on
+  void release() {
+    if (b) {
+      memset(b, 0xEE, len + 1);
+      delete[] b;
+      b = NULL;
+    }
+  }
   ~Pat() { delete[] b; }
   Pat(const Pat &) = delete;
 };
@@ -633,6 +642,7 @@ static inline void op_prefix(Ctx &c) {
       IteratorDictID *it = c.d->locatePrefix(p.b, (uint)p.len);
       obs::count("eval.locatePrefix");
       chk_intact(p, "locatePrefix", qcls);
+      p.release();
       if (!it) {
         obs::violation("C04", "locatePrefix", "null-iterator", qcls, "p=" + obs::esc(pq.p));
       } else {
@@ -688,6 +698,7 @@ static inline void op_prefix(Ctx &c) {
       IteratorDictString *it = c.d->extractPrefix(p.b, (uint)p.len);
       obs::count("eval.extractPrefix");
       chk_intact(p, "extractPrefix", qcls);
+      p.release();
       std::vector<StrItem> got;
       bool over = false, nullstr = false, still = false;
       if (it) {
@@ -854,6 +865,7 @@ static inline void op_substr(Ctx &c) {
       IteratorDictID *it = c.d->locateSubstr(p.b, (uint)p.len);
       obs::count("eval.locateSubstr");
       chk_intact(p, "locateSubstr", qcls);
+      p.release();
       if (!it) {
         obs::violation("C05", "locateSubstr", "null-iterator", qcls, "p=" + obs::esc(pq.p));
       } else {
@@ -901,6 +913,7 @@ static inline void op_substr(Ctx &c) {
       IteratorDictString *it = c.d->extractSubstr(p.b, (uint)p.len);
       obs::count("eval.extractSubstr");
       chk_intact(p, "extractSubstr", qcls);
+      p.release();
       std::vector<StrItem> got;
       bool over = false, nullstr = false, still = false;
       if (it) {
